@@ -12,9 +12,10 @@ class RemoveGroupsNotificationProtocolEntity(GroupsNotificationProtocolEntity):
     TYPE_PARTICIPANT_ADMIN = "admin"
     def __init__(self, _id, _from, timestamp, notify, participant, offline,
                  subject,
-                 participants):
+                 participants, mode=None):
         super(RemoveGroupsNotificationProtocolEntity, self).__init__(_id, _from, timestamp, notify, participant, offline)
         self.setGroupProps(subject, participants)
+        self.mode = mode
 
     def setGroupProps(self,
                       subject,
@@ -31,8 +32,13 @@ class RemoveGroupsNotificationProtocolEntity(GroupsNotificationProtocolEntity):
     def getSubject(self):
         return self.subject
 
+    def getMode(self):
+        return self.mode
+
     def toProtocolTreeNode(self):
         node = super(RemoveGroupsNotificationProtocolEntity, self).toProtocolTreeNode()
+        if self.mode is not None:
+            node.setAttribute("mode", self.mode)
         removeNode = ProtocolTreeNode("remove", {"subject": self.subject})
         participants = []
         for jid in self.getParticipants():
@@ -53,5 +59,5 @@ class RemoveGroupsNotificationProtocolEntity(GroupsNotificationProtocolEntity):
 
         return RemoveGroupsNotificationProtocolEntity(
             node["id"], node["from"], node["t"], node["notify"], node["participant"], node["offline"],
-            removeNode["subject"], participants
+            removeNode["subject"], participants, node["mode"]
         )
